@@ -31,7 +31,7 @@ _STR_METHODS = {"startswith", "endswith", "strip", "lstrip", "rstrip", "partitio
                 "removeprefix", "removesuffix", "isdigit", "find", "index", "count", "join", "format", "isidentifier", "isalpha", "isalnum", "isupper", "islower",
                 "capitalize", "title", "casefold", "swapcase"}
 _SET_METHODS = {"intersection", "union", "difference", "issubset", "issuperset", "isdisjoint", "symmetric_difference", "copy"}
-_RE_PURE = {"re.split", "re.findall"}
+_RE_PURE = {"re.split", "re.findall", "re.compile", "re.sub", "re.escape"}
 _TYPES = {"float": float, "int": int, "str": str, "bool": bool, "bytes": bytes}
 import datetime as _dtmod
 _ATTRS = {"timezone.utc": _dtmod.timezone.utc, "datetime.timezone.utc": _dtmod.timezone.utc, "math.inf": math.inf, "math.nan": math.nan, "math.pi": math.pi, "keyword.kwlist": tuple(_keyword.kwlist), "keyword.softkwlist": tuple(getattr(_keyword, "softkwlist", ()))}
@@ -85,6 +85,12 @@ def ev(t: Sym, env: Dict[Any, Any]) -> Any:
     if k == "sub":
         base = ev(t[1], env)
         idx = ev(t[2], env)
+        import re as _re2
+        if isinstance(base, _re2.Match):
+            try:
+                return base[idx]
+            except (IndexError, TypeError) as e:
+                raise Unknown(f"match[{idx!r}]: {e}")
         try:
             return base[idx]
         except (TypeError, IndexError, KeyError) as e:
@@ -193,6 +199,40 @@ def ev(t: Sym, env: Dict[Any, Any]) -> Any:
                     return getattr(recv, t[1][2])(*[ev(x, env) for x in t[2]])
                 except TypeError as e:
                     raise Unknown(f"{t[1][2]}: {e}")
+        if t[1][0] == "a" and t[1][2] in ("sub", "subn", "match", "search", "fullmatch", "findall", "split") and t[2]:
+            # methods of a compiled pattern (a module-level constant built by re.compile on a literal); a replacement given as a
+            # lambda is applied through this evaluator
+            import re as _re
+            try:
+                recv = ev(t[1][1], env)
+            except Unknown:
+                recv = None
+            if isinstance(recv, _re.Pattern):
+                args = []
+                for x in t[2]:
+                    if x[0] == "opaque" and str(x[1]).startswith("lambda"):
+                        import ast as _ast
+                        from .sym import from_ast as _from_ast
+                        lam = _ast.parse(x[1], mode="eval").body
+                        if not isinstance(lam, _ast.Lambda) or len(lam.args.args) != 1:
+                            raise Unknown("lambda shape")
+                        body_t, prm = _from_ast(lam.body), lam.args.args[0].arg
+                        args.append(lambda m_, _b=body_t, _p=prm: ev(_b, {**env, _p: m_}))
+                    else:
+                        args.append(ev(x, env))
+                kw = {k_: ev(v_, env) for k_, v_ in t[3]}
+                try:
+                    return getattr(recv, t[1][2])(*args, **kw)
+                except (TypeError, ValueError, _re.error) as e:
+                    raise Unknown(f"{t[1][2]}: {e}")
+        if t[1][0] == "a" and t[1][2] in ("group", "groups", "start", "end", "span") and not t[3]:
+            import re as _re
+            try:
+                recv = ev(t[1][1], env)
+            except Unknown:
+                recv = None
+            if isinstance(recv, _re.Match):
+                return getattr(recv, t[1][2])(*[ev(x, env) for x in t[2]])
         if name in _RE_PURE:
             import re as _re
             args = [ev(x, env) for x in t[2]]
